@@ -518,20 +518,24 @@ def apply(st, op, values=None):
         rec.add_attributes([(st.spell(aname), val.make(st, scope))])
         _conform(rec, model.sc[scope].records[idx])
     elif kind == "asrt":
-        # add_asserted_type on the record created last (a PROV class name: its namespace is always declared)
+        # add_asserted_type on the record created last: a prov:type value arriving through the record-level editor
+        # (any value add_attributes takes for prov:type: a qualified name of a namespace the container may not have
+        # seen yet, a literal ...)
         _, vkey = op
         if st.last is None:
             raise NotEnabled("no-record")
         scope, idx, rec = st.last
         val = values[vkey]
-        if getattr(val, "name", ("", ""))[0] != "P":
-            raise NotEnabled("asserted-type-outside-prov-namespace")
         model = _fork(ref)
+        vo = val.model_obs(model, scope)
         mrec = model.sc[scope].records[idx]
-        pair = (PROV_URI + "type", ("qn", U["P"] + val.name[1]))
-        if pair in mrec[2]:
+        auri = PROV_URI + "type"
+        if (auri, vo) in mrec[2]:
             raise NotEnabled("attribute-value-already-present")
-        model.sc[scope].records[idx] = [mrec[0], mrec[1], list(mrec[2]) + [pair]]
+        for (a2, v2) in mrec[2]:
+            if a2 == auri and val.py_equal_other_kind(v2, vo):
+                raise NotEnabled("J1-equal-different-kind")
+        model.sc[scope].records[idx] = [mrec[0], mrec[1], list(mrec[2]) + [(auri, vo)]]
         st.ref = model
         rec.add_asserted_type(val.make(st, scope))
         _conform(rec, model.sc[scope].records[idx])
